@@ -844,14 +844,14 @@ func (r Stack) Reset() {
 reset is a private method called by [Stack.Reset].
 */
 func (r *stack) reset() {
+	r.lock()
+	defer r.unlock()
+
 	if r.ulen() == 0 {
 		return
 	}
 
 	cfg, _ := r.config()
-
-	r.lock()
-	defer r.unlock()
 
 	// drop every slice, nil ones included,
 	// keeping only the configuration slice
